@@ -119,6 +119,10 @@ def _chunk_size_ok(cs):
         k *= v
     if k < 4:
         return False, f'the divisor constant is {k} < 4 (the property assumes d <= L/4)'
+    # all streams of the command share the one limiter: the unit is divided by their number, so that the pieces the N
+    # streams push at the same instant add up to a fixed fraction of L (a burst that does not grow with N)
+    if not any(x[0] == 'attr' and x[2] in ('_concurrent', 'concurrent') for x in walk(d)) and not any(x == ('param', 'concurrent') for x in walk(d)):
+        return False, 'the unit is not divided by the number of concurrent streams: N streams sharing the limiter push N pieces of L/k at the same instant - the burst grows with the concurrency instead of being a fixed allowance'
     return True, ''
 
 
@@ -160,11 +164,15 @@ def r4_debt_lock(ctx):
             ctx.fail('C20.R4', f'{func_label(f)}|debt-under-lock', loc(f, f.node), f'{mname}: no `with self.<lock>:` section - the debt is updated without a lock')
             continue
         lock = next(dotted(it.context_expr) for it in withs[0].items if (dotted(it.context_expr) or '').startswith('self.'))[5:]
-        stored = [t.attr for a in ast.walk(f.node) if isinstance(a, (ast.Assign, ast.AugAssign)) for t in (a.targets if isinstance(a, ast.Assign) else [a.target]) if isinstance(t, ast.Attribute) and isinstance(t.value, ast.Name) and t.value.id == 'self']
+        # the debt field: the attribute path below self (self.<field> or self.<holder>.<field>) that is stored in the method
+        stored = [dotted(t)[5:] for a in ast.walk(f.node) if isinstance(a, (ast.Assign, ast.AugAssign)) for t in (a.targets if isinstance(a, ast.Assign) else [a.target]) if isinstance(t, ast.Attribute) and (dotted(t) or '').startswith('self.')]
         if not stored:
             raise AnalysisError(f'C20.R4: no debt field stored in RateLimitedIO.{mname}')
         field = max(set(stored), key=stored.count)
         fields_seen.append(field)
+
+        def is_field(x, _field=field):
+            return isinstance(x, ast.Attribute) and dotted(x) == f'self.{_field}'
 
         def under_lock(n):
             for a in ancestors(n):
@@ -174,7 +182,8 @@ def r4_debt_lock(ctx):
                     break
             return False
 
-        accesses = [a for a in ast.walk(f.node) if isinstance(a, ast.Attribute) and a.attr == field]
+        # reads of the debt kept in a local before the lock is taken are accesses outside the lock as well
+        accesses = [a for a in ast.walk(f.node) if is_field(a)]
         ctx.floor('C20.R4', f'accesses of {field}', len(accesses), 3)
         bad = [a for a in accesses if not under_lock(a)]
         ctx.check(not bad, 'C20.R4', f'{func_label(f)}|debt-under-lock', loc(f, f.node), f'{mname}: every access of {field} is inside `with self.{lock}`', f'{mname}: {field} is accessed outside `with self.{lock}` (line {bad[0].lineno if bad else 0}): concurrent streams lose or double-count debt')
@@ -190,15 +199,15 @@ def r4_debt_lock(ctx):
                 f'{mname}: the sleep happens after releasing the lock: N streams sharing the limiter sleep in parallel and together pass N times the limit',
             )
             arg = c.args[0] if c.args else None
-            ctx.check(arg is not None and any(isinstance(x, ast.Attribute) and x.attr == field for x in ast.walk(arg)), 'C20.R4', f'{func_label(f)}|sleeps-the-debt', loc(f, c), f'{mname}: sleeps the accumulated debt', f'{mname}: sleeps `{src(arg) if arg is not None else ""}`, not the accumulated debt')
+            ctx.check(arg is not None and any(is_field(x) for x in ast.walk(deref(f.node, arg) if isinstance(arg, ast.Name) else arg)), 'C20.R4', f'{func_label(f)}|sleeps-the-debt', loc(f, c), f'{mname}: sleeps the accumulated debt', f'{mname}: sleeps `{src(arg) if arg is not None else ""}`, not the accumulated debt')
         # accumulation: += seconds
         pname = f.node.args.args[1].arg if len(f.node.args.args) > 1 else None
-        acc = [a for a in walk_local(f.node) if isinstance(a, ast.AugAssign) and isinstance(a.op, ast.Add) and isinstance(a.target, ast.Attribute) and a.target.attr == field and isinstance(a.value, ast.Name) and a.value.id == pname]
+        acc = [a for a in walk_local(f.node) if isinstance(a, ast.AugAssign) and isinstance(a.op, ast.Add) and is_field(a.target) and isinstance(a.value, ast.Name) and a.value.id == pname]
         # ... or `debt = min(debt + seconds, LIMIT)` / `debt = debt + seconds`
         for a in walk_local(f.node):
-            if isinstance(a, ast.Assign) and any(isinstance(t, ast.Attribute) and t.attr == field for t in a.targets):
-                for b_ in ast.walk(a.value):
-                    if isinstance(b_, ast.BinOp) and isinstance(b_.op, ast.Add) and {type(b_.left), type(b_.right)} == {ast.Attribute, ast.Name} and any(isinstance(x, ast.Attribute) and x.attr == field for x in (b_.left, b_.right)) and any(isinstance(x, ast.Name) and x.id == pname for x in (b_.left, b_.right)):
+            if isinstance(a, ast.Assign) and any(is_field(t) for t in a.targets):
+                for b_ in ast.walk(deref(f.node, a.value) if isinstance(a.value, ast.Name) else a.value):
+                    if isinstance(b_, ast.BinOp) and isinstance(b_.op, ast.Add) and {type(b_.left), type(b_.right)} == {ast.Attribute, ast.Name} and any(is_field(x) for x in (b_.left, b_.right)) and any(isinstance(x, ast.Name) and x.id == pname for x in (b_.left, b_.right)):
                         acc.append(a)
         reassigned = [a for a in ast.walk(f.node) if isinstance(a, ast.Name) and a.id == pname and isinstance(a.ctx, ast.Store)]
         ctx.check(
@@ -214,7 +223,7 @@ def r4_debt_lock(ctx):
     init = rl.methods['__init__']
     others = [m for n, m in rl.methods.items() if n not in ('__init__', 'pause_reads', 'pause_writes')]
     for m in others:
-        bad = [a for a in ast.walk(m.node) if isinstance(a, ast.Attribute) and a.attr in set(fields_seen)]
+        bad = [a for a in ast.walk(m.node) if isinstance(a, ast.Attribute) and (dotted(a) or '')[5:] in set(fields_seen)]
         ctx.check(not bad, 'C20.R4', f'{func_label(m)}|debt-not-touched-elsewhere', loc(m, m.node), f'{m.name} does not touch the debt fields', f'{m.name} touches the debt fields outside their lock')
 
 
